@@ -119,13 +119,15 @@ class Obligation:
 
 
 class Txn:
-    __slots__ = ('log', 'npc', 'nobl', 'inner')
+    __slots__ = ('log', 'npc', 'nobl', 'inner', 'fresh', 'keep')
 
     def __init__(self, npc, nobl):
         self.log = []
         self.npc = npc
         self.nobl = nobl
         self.inner = []
+        self.fresh = set()
+        self.keep = []
 
 
 _BUILTIN_NAMES = {
@@ -154,6 +156,7 @@ class Path:
         self.in_global = 0
         self.inlined: set = set()
         self.modular: set = set()
+        self.modular_calls: dict = {}
         self.merge_inner: list | None = None
 
     # ------------------------------------------------------------------ pc
@@ -249,8 +252,17 @@ class Path:
     # --------------------------------------------------------------- merge
     def write(self, container: dict, key, value):
         if self.txns:
-            self.txns[-1].log.append((container, key, container.get(key, MISSING)))
+            cid = id(container)
+            if not any(cid in t.fresh for t in self.txns):
+                self.txns[-1].log.append((container, key, container.get(key, MISSING)))
         container[key] = value
+
+    def new_dict(self, d: dict):
+        """register a dict (frame locals / object fields) created during a merge attempt"""
+        if self.txns:
+            self.txns[-1].fresh.add(id(d))
+            self.txns[-1].keep.append(d)
+        return d
 
     def _begin(self) -> Txn:
         t = Txn(len(self.pc), len(self.obligations))
@@ -738,6 +750,7 @@ class Path:
     def _comp(self, node, fr, elt):
         out = []
         inner = Frame(fr.module, fr.fn, fr.cls, parent=fr)
+        self.new_dict(inner.locals)
 
         def rec(i):
             if i == len(node.generators):
@@ -1355,6 +1368,7 @@ class Path:
             return self.ex.intrinsics.call_bound(self, f.name, f.recv, args, kwargs)
         if isinstance(f, LambdaV):
             fr = Frame(f.frame.module, f.frame.fn, f.frame.cls, parent=f.frame)
+            self.new_dict(fr.locals)
             self.bind_args(f.node.args, args, kwargs, fr, 'lambda')
             return self.ev(f.node.body, fr)
         if isinstance(f, SObj):
@@ -1390,6 +1404,7 @@ class Path:
             return ExcV(ci.name, tuple(bases), tuple(args))
         dc = self._dataclass_fields(ci)
         obj = SObj(ci, {})
+        self.new_dict(obj.fields)
         init = self.index.find_method(ci, '__init__')
         if init is None and dc is not None:
             # dataclass: synthesize __init__
@@ -1499,6 +1514,7 @@ class Path:
             if info.module.name.split('.')[0] == 'fpy2':
                 self.inlined.add(info.qualname)
             fr = Frame(info.module, info, info.cls, parent=f.closure)
+            self.new_dict(fr.locals)
             self.bind_args(info.node.args, args, kwargs, fr, info.qualname, Frame(info.module, cls=info.cls, parent=f.closure))
             try:
                 self.exec_block(info.node.body, fr)
